@@ -54,6 +54,7 @@ def make_h(tier):
         for d in pick_dirs:
             dir_names += [d, d + "x", "x" + d, d.upper()]
         dir_names.append("mylib.egg-info")
+        dir_names.append("keep.py")        # a directory whose name is also the name of a regular file elsewhere (pkg/keep.py)
         file_names = ["a.py", "b.ts"] + ["m" + e + ".py" for e in (exts if not quick else exts[:3])] + \
                      ["builder.py", "build.py", "c" + exts[0]]
         d1 = ctx.pick("dir1", dir_names)
@@ -61,7 +62,7 @@ def make_h(tier):
         fname = ctx.pick("file", file_names)
         recursive = ctx.flag("recursive")
         ig = ctx.pick("ignore_pattern", ("none", "dir1/", "build/", "*.ts", "dir1/file", "dir1/**", "**/file", "**/dir1/", "**/dir2/"))
-        if ig not in ("none", "build/", "dir1/") and d1 not in ("pkg", "build", "buildx", "xbuild", "BUILD", "node_modules", ".hidden"):
+        if ig not in ("none", "build/", "dir1/") and d1 not in ("pkg", "build", "buildx", "xbuild", "BUILD", "node_modules", ".hidden", "keep.py"):
             ctx.assume(False)
         src_kind = ctx.pick("ignore_source", (".thailintignore", "config-ignore")) if ig != "none" else "none"
         explicit = ctx.flag("also_named_explicitly")
